@@ -2,6 +2,7 @@
 from __future__ import annotations
 
 import contextlib
+import enum
 import logging
 import sys
 import warnings
@@ -28,9 +29,40 @@ T0 = datetime(2000, 1, 1)
 DAY = timedelta(days=1)
 
 
+_CLASS_STATE = None
+
+
+def _class_level_containers():
+    """(class, attribute) pairs of finam classes holding a mutable container at class level."""
+    found = []
+    for mname, mod in list(sys.modules.items()):
+        if not (mname == "finam" or mname.startswith("finam.")) or mod is None:
+            continue
+        for obj in list(vars(mod).values()):
+            if isinstance(obj, type) and getattr(obj, "__module__", "") == mname \
+                    and not issubclass(obj, enum.Enum):
+                for an, av in list(vars(obj).items()):
+                    if not an.startswith("__") and isinstance(av, (list, dict, set)):
+                        found.append((obj, an))
+    return found
+
+
 def reset_finam_state():
-    """Neutralise process-global state that would make re-execution non-deterministic."""
+    """Neutralise process-global state that would make re-execution non-deterministic.
+
+    Every execution of a harness must start from the state of a fresh interpreter: the units cache is
+    cleared and mutable containers bound at class level in finam (state shared by all instances of a
+    class) are put back to their import-time content, so what one execution leaves there cannot reach
+    the next one -- sharing *within* an execution stays visible to the oracles."""
+    global _CLASS_STATE
     _units.clear_units_cache()
+    if _CLASS_STATE is None:
+        import copy
+        _CLASS_STATE = [(c, a, copy.deepcopy(vars(c)[a])) for c, a in _class_level_containers()]
+    else:
+        import copy
+        for c, a, snap in _CLASS_STATE:
+            setattr(c, a, copy.deepcopy(snap))
 
 
 @contextlib.contextmanager
